@@ -161,6 +161,69 @@ fn oracle() -> Oracle {
     })
 }
 
+/// Far beyond the enumerated scope: 70 and 130 outputs, the program reads one of them, the driver
+/// supplies a few others (the one 64 places away among them): constructing the iterator fails, for
+/// every position of the read output; when the driver does supply it, rows are yielded.
+fn many_outputs_cases(deadline: &Deadline) -> Stats {
+    let ns = [66usize, 70, 130];
+    par_range("70 / 130 outputs: the program reads output j, the driver supplies {j-64, j+64, 0, n-1} without j / with j, for every j", ns.iter().map(|n| *n as u64).sum::<u64>() * 2, deadline, |u, st| {
+        let mut u2 = u / 2;
+        let with = u % 2 == 1;
+        let mut n = 0;
+        for m in ns {
+            if u2 < m as u64 {
+                n = m;
+                break;
+            }
+            u2 -= m as u64;
+        }
+        let j = u2 as usize;
+        // an input first, then an output, then the rest: signal indices and output numbers differ by one
+        let mut sigs: Vec<Sig> = vec![Sig::inp("A", 8, 0)];
+        sigs.extend((0..n).map(|i| Sig::out(&format!("O{i}"), 8)));
+        let prog = Program { header: vec!["A".into()], body: vec![Stmt::Row(vec![Entry::Paren(bin(BinOp::Add, name(&format!("O{j}")), lit(1)))]), Stmt::Row(vec![Entry::Lit(2, Radix::Dec)])] };
+        let text = crate::model::text(&prog);
+        let mut supplied: Vec<usize> = vec![0, n - 1];
+        if j >= 64 {
+            supplied.push(j - 64);
+        }
+        if j >= 63 {
+            supplied.push(j - 63);
+        }
+        if j + 64 < n {
+            supplied.push(j + 64);
+        }
+        if j + 65 < n {
+            supplied.push(j + 65);
+        }
+        supplied.retain(|i| *i != j);
+        if with {
+            supplied.push(j);
+        }
+        supplied.sort();
+        supplied.dedup();
+        let script = vec![crate::driver::Step::Ans(supplied.iter().map(|i| (format!("O{i}"), V::Num(*i as i64 % 200))).collect())];
+        let mut opts = RunOpts::new(4);
+        opts.repeat_last = true;
+        let obs = run_dynamic(&text, &sigs, true, &script, &opts);
+        st.evals += 1;
+        st.nontrivial += 1;
+        st.witness("more_than_64_outputs");
+        let bad = match (&obs.init, with) {
+            (ObsInit::Runtime(_), false) => None,
+            (other, false) => Some(format!("construction: the program reads O{j}, the driver supplies only {supplied:?}: try_iter must fail before any row is run, it gives {}", other.brief())),
+            (ObsInit::Ok, true) => match obs.items.first() {
+                Some(ObsItem::Row(r)) if r.inputs.first().map(|i| i.1) == Some(V::Num((j as i64 % 200) + 1)) => None,
+                other => Some(format!("inputs value: the driver supplies O{j} = {}; the first row must write A = {}, got {:?}", j % 200, j % 200 + 1, other.map(|i| i.brief()))),
+            },
+            (other, true) => Some(format!("construction: the driver supplies the output the program reads (O{j}), try_iter gives {}", other.brief())),
+        };
+        if let Some(m) = bad {
+            st.violation(&format!("large scale: {}", m.split(':').next().unwrap_or("?")), (14 << 40) + u, format!("{n} outputs\nprogram:\n{text}{m}"), || dyn_replay(&text, &sigs, true, &script, &opts, vec![if with { "rows".into() } else { "try_iter fails (missing output)".into() }], &obs, &m));
+        }
+    })
+}
+
 pub fn run(tier: Tier, seed: u64) -> i32 {
     let started = Instant::now();
     let deadline = Deadline::new(tier.wall_cap());
@@ -361,6 +424,7 @@ pub fn run(tier: Tier, seed: u64) -> i32 {
         exhaustive_note: "every reachable state up to the depth bound for every case".into(),
         e1: true,
     };
+    st.merge(many_outputs_cases(&deadline));
     st.merge(crate::props::c13::reuse_part(&deadline));
     st.merge(crate::props::c13::api_use_part(&deadline));
     finish(meta, st, started)
